@@ -296,4 +296,437 @@ theorem KCons.handleData {x : Cons} (K : KCons x) (k : Nat) (a : Arrival) (hk : 
           have hlt : advance (g.content.set k (some p.content)) n (n + 1) g.wnd1 < n := by omega
           exact ⟨p1, p2, hlen, hlt, a4 hlt, p6, hcov⟩
 
+/-! ### client-level bookkeeping -/
+
+def totalPending (c : Client) : Nat := (c.cons.map fun x => x.pending.length).sum
+
+theorem sum_map_set {α : Type} (f : α → Nat) : ∀ (l : List α) (i : Nat) (a : α) (h : i < l.length),
+    ((l.set i a).map f).sum + f (l[i]) = (l.map f).sum + f a := by
+  intro l
+  induction l with
+  | nil => intro i a h; cases h
+  | cons x t ih =>
+    intro i a h
+    cases i with
+    | zero => simp; omega
+    | succ i =>
+      have := ih i a (by simpa using h)
+      simp only [List.set_cons_succ, List.map_cons, List.sum_cons, List.getElem_cons_succ]
+      omega
+
+theorem getCons_of_lt (c : Client) (o : Nat) (h : o < c.cons.length) : c.getCons o = c.cons[o] := by
+  unfold Client.getCons
+  rw [List.getD_eq_getElem?_getD, List.getElem?_eq_getElem h]; rfl
+
+theorem totalPending_setCons (c : Client) (o : Nat) (x : Cons) (h : o < c.cons.length) :
+    totalPending (c.setCons o x) + (c.getCons o).pending.length = totalPending c + x.pending.length := by
+  unfold totalPending Client.setCons
+  rw [getCons_of_lt c o h]
+  exact sum_map_set (fun x => x.pending.length) c.cons o x h
+
+theorem setCons_of_ge (c : Client) (o : Nat) (x : Cons) (h : ¬ o < c.cons.length) : c.setCons o x = c := by
+  unfold Client.setCons
+  rw [List.set_eq_of_length_le (by omega)]
+
+structure Inv5 (N : Nat) (c : Client) : Prop where
+  len : c.cons.length = N
+  k : ∀ o : Nat, KCons (c.getCons o)
+  out : c.outstanding = totalPending c
+  inrange : ∀ o ∈ c.streams, o < c.cons.length
+
+/-- consume `o` is somewhere: queued in the fetcher, waiting for its metadata, or finished -/
+def Placed (c : Client) (o : Nat) : Prop :=
+  o ∈ c.streams ∨ (c.getCons o).metaPending = true ∨ (c.getCons o).f.complete = true
+
+theorem KCons.congr {x y : Cons} (K : KCons x) (hf : y.f = x.f) (hp : y.pending = x.pending) : KCons y := by
+  have hk : keys y = keys x := by unfold keys; rw [hp]
+  refine ⟨by rw [hk]; exact K.nodup, by rw [hk, hf]; exact K.lt, by rw [hf]; exact K.small, ?_⟩
+  intro hc
+  rw [hf] at hc ⊢
+  rw [hk]
+  exact K.live hc
+
+/-- replacing the record of one consume by one with the same pending list and an acceptable fetch
+    state keeps the client bookkeeping -/
+theorem Inv5.setCons {N : Nat} {c : Client} (I : Inv5 N c) (o : Nat) (x : Cons) (hK : KCons x)
+    (hp : x.pending.length = (c.getCons o).pending.length) : Inv5 N (c.setCons o x) := by
+  by_cases h : o < c.cons.length
+  · refine ⟨by unfold Client.setCons; simp [I.len], ?_, ?_, ?_⟩
+    · intro o'
+      rw [getCons_setCons]
+      split
+      · exact hK
+      · exact I.k o'
+    · have := totalPending_setCons c o x h
+      show c.outstanding = _
+      rw [I.out]; omega
+    · intro o' ho'
+      show o' < (c.cons.set o x).length
+      rw [List.length_set]; exact I.inrange o' ho'
+  · rw [setCons_of_ge c o x h]; exact I
+
+theorem KCons.fail {x : Cons} (K : KCons x) : KCons { x with f := x.f.finalizeError.1 } := by
+  have h1 := fe_spec x.f
+  refine ⟨K.nodup, ?_, ?_, ?_⟩
+  · intro k hk; show k < x.f.finalizeError.1.wnd2; rw [h1.2]; exact K.lt k hk
+  · show x.f.finalizeError.1.wnd2 ≤ _; rw [h1.2]; exact K.small
+  · intro hc
+    have : x.f.finalizeError.1.complete = false := hc
+    rw [h1.1] at this; cases this
+
+theorem Inv5.fail {N : Nat} {c : Client} (I : Inv5 N c) (o : Nat) : Inv5 N (c.fail o).1 := by
+  unfold Client.fail
+  exact I.setCons o _ (I.k o).fail rfl
+
+theorem fail_placed (c : Client) (o o' : Nat) (ho : o < c.cons.length) (h : o' = o ∨ Placed c o') :
+    Placed (c.fail o).1 o' := by
+  unfold Client.fail Placed
+  simp only
+  rw [getCons_setCons]
+  by_cases he : o' = o
+  · subst he
+    simp only [ho, and_self, if_true]
+    exact Or.inr (Or.inr (fe_spec _).1)
+  · simp only [he, false_and, if_false]
+    rcases h with h | h
+    · exact absurd h he
+    · exact h
+
+/-! ### doCheck keeps the bookkeeping -/
+
+theorem mem_eraseIdx_or {l : List Nat} {i a : Nat} (h : a ∈ l) : a ∈ l.eraseIdx i ∨ a = l.getD i 0 := by
+  by_cases he : l.getD i 0 = a
+  · exact Or.inr he.symm
+  · exact Or.inl (mem_eraseIdx_of_ne h he)
+
+/-- the selection loop removes only finished streams -/
+theorem pick_removed (cons : List Cons) : ∀ (fuel : Nat) (streams : List Nat) (rr : Nat) (first : Option Nat),
+    ∀ x ∈ streams, x ∈ (pick cons fuel streams rr first).1 ∨ (fOf cons x).complete = true := by
+  intro fuel
+  induction fuel with
+  | zero => intro streams rr first x hx; simp only [pick]; exact Or.inl hx
+  | succ fuel ih =>
+    intro streams rr first x hx
+    rw [pick]
+    by_cases hemp : streams.isEmpty = true
+    · simp only [hemp, if_true]; exact Or.inl hx
+    · simp only [hemp, Bool.false_eq_true, if_false]
+      obtain ⟨s, hsd⟩ : ∃ s : Nat, s = streams.getD ((rr + 1) % streams.length) 0 := ⟨_, rfl⟩
+      rw [← hsd]
+      by_cases hfs : first = some s
+      · simp only [hfs, if_true]; exact Or.inl hx
+      · simp only [hfs, if_false]
+        by_cases hc : (cons.getD s default).f.complete = true
+        · simp only [hc, if_true]
+          rcases mem_eraseIdx_or (i := (rr + 1) % streams.length) hx with h | h
+          · exact ih _ _ _ x h
+          · right; rw [h, ← hsd]; exact hc
+        · have hc' : (cons.getD s default).f.complete = false := Bool.eq_false_iff.mpr hc
+          simp only [hc', Bool.false_eq_true, if_false]
+          (repeat' split) <;> first | exact ih _ _ _ x hx | exact Or.inl hx
+
+theorem KCons.queue {x : Cons} (K : KCons x) (he : eligible x.f = true) :
+    KCons { x with f := { x.f with wnd2 := x.f.wnd2 + 1 }, pending := x.pending ++ [(x.f.wnd2, retryBudget)] } := by
+  simp only [eligible, Bool.and_eq_true, Bool.not_eq_true'] at he
+  obtain ⟨⟨hc, h2⟩, h3⟩ := he
+  have L := K.live hc
+  have hkeys : keys
+      { x with
+        f := { x.f with wnd2 := x.f.wnd2 + 1 }
+        pending := x.pending ++ [(x.f.wnd2, retryBudget)] } = keys x ++ [x.f.wnd2] := by
+    simp [keys]
+  refine ⟨?_, ?_, ?_, ?_⟩
+  · rw [hkeys, List.nodup_append]
+    refine ⟨K.nodup, by simp, ?_⟩
+    intro a ha b hb hab
+    simp at hb; subst hb; subst hab
+    have := K.lt _ ha; omega
+  · intro k hk
+    rw [hkeys] at hk
+    show k < x.f.wnd2 + 1
+    rcases List.mem_append.mp hk with h | h
+    · have := K.lt k h; omega
+    · simp at h; omega
+  · show x.f.wnd2 + 1 ≤ maxObjectSeg
+    cases hs : x.f.segCnt with
+    | none =>
+      rw [hs] at L
+      simp only [skipWait, hs, Option.isNone_none, Bool.true_and, decide_eq_false_iff_not] at h2
+      have : maxObjectSeg = 100000000 := rfl
+      omega
+    | some n =>
+      rw [hs] at L
+      simp only [skipOut, hs, Bool.and_eq_false_iff, decide_eq_false_iff_not] at h3
+      obtain ⟨l1, l2, _⟩ := L
+      omega
+  · intro _
+    dsimp only
+    rw [hkeys]
+    cases hs : x.f.segCnt with
+    | none =>
+      rw [hs] at L
+      simp only [skipWait, hs, Option.isNone_none, Bool.true_and, decide_eq_false_iff_not] at h2
+      obtain ⟨l1, l2, l3⟩ := L
+      refine ⟨l1, by omega, ?_⟩
+      intro k hk
+      have : k = x.f.wnd2 := by omega
+      rw [this]; simp
+    | some n =>
+      rw [hs] at L
+      simp only [skipOut, hs, Bool.and_eq_false_iff, decide_eq_false_iff_not] at h3
+      obtain ⟨l1, l2, l3, l4, l5, l6, l7⟩ := L
+      refine ⟨l1, l2, l3, l4, l5, by omega, ?_⟩
+      intro k hk
+      by_cases hkw : k < x.f.wnd2
+      · rcases l7 k hkw with h | h
+        · exact Or.inl (List.mem_append_left _ h)
+        · exact Or.inr h
+      · have : k = x.f.wnd2 := by omega
+        left; rw [this]; simp
+
+theorem Inv5.afterPick {N : Nat} {c : Client} (I : Inv5 N c) (r : List Nat × Nat × Option Nat × Bool)
+    (hsub : ∀ x ∈ r.1, x ∈ c.streams) : Inv5 N (afterPick c r) :=
+  ⟨I.len, I.k, I.out, fun o ho => I.inrange o (hsub o ho)⟩
+
+theorem Inv5.queueSeg {N : Nat} {c : Client} (I : Inv5 N c) (s : Nat) (hs : s ∈ c.streams)
+    (he : eligible (fOf c.cons s) = true) : Inv5 N (queueSeg c s) := by
+  have hlt := I.inrange s hs
+  unfold C15.queueSeg
+  obtain ⟨x2, hx2⟩ : ∃ x2 : Cons, x2 =
+      { (c.getCons s) with
+        f := { (c.getCons s).f with wnd2 := (c.getCons s).f.wnd2 + 1 }
+        pending := (c.getCons s).pending ++ [((c.getCons s).f.wnd2, retryBudget)] } := ⟨_, rfl⟩
+  rw [← hx2]
+  have hK : KCons x2 := by rw [hx2]; exact (I.k s).queue he
+  have hplen : x2.pending.length = (c.getCons s).pending.length + 1 := by rw [hx2]; simp
+  refine ⟨by show (c.cons.set s x2).length = N; rw [List.length_set]; exact I.len, ?_, ?_, ?_⟩
+  · intro o'
+    show (c.setCons s x2).getCons o' |> KCons
+    rw [getCons_setCons]
+    split
+    · exact hK
+    · exact I.k o'
+  · have := totalPending_setCons c s x2 hlt
+    show c.outstanding + 1 = totalPending (c.setCons s x2)
+    rw [I.out]; omega
+  · intro o' ho'
+    show o' < (c.cons.set s x2).length
+    rw [List.length_set]; exact I.inrange o' ho'
+
+theorem queueSeg_placed (c : Client) (s o : Nat) (h : Placed c o) : Placed (queueSeg c s) o := by
+  unfold Placed at h ⊢
+  have e : (queueSeg c s).getCons o = (c.setCons s
+      { (c.getCons s) with
+        f := { (c.getCons s).f with wnd2 := (c.getCons s).f.wnd2 + 1 }
+        pending := (c.getCons s).pending ++ [((c.getCons s).f.wnd2, retryBudget)] }).getCons o := rfl
+  rw [e, getCons_setCons]
+  have hst : (queueSeg c s).streams = c.streams := rfl
+  rw [hst]
+  split
+  · rename_i hh; obtain ⟨e1, _⟩ := hh; subst e1; exact h
+  · exact h
+
+theorem doCheck_inv5 {N : Nat} : ∀ (fuel : Nat) (c : Client), Inv5 N c →
+    Inv5 N (c.doCheck fuel).1 ∧ ∀ o : Nat, Placed c o → Placed (c.doCheck fuel).1 o := by
+  intro fuel
+  induction fuel with
+  | zero => intro c I; exact ⟨I, fun o h => h⟩
+  | succ fuel ih =>
+    intro c I
+    rw [doCheck_succ]
+    by_cases hw : c.outstanding ≥ window
+    · rw [if_pos hw]; exact ⟨I, fun o h => h⟩
+    · rw [if_neg hw]
+      obtain ⟨p1, p2, _⟩ := pick_spec c.cons ((c.streams.length + 1) * (c.streams.length + 1) + 1) c.streams
+        c.rrIndex none (fun f h => by cases h)
+      have prem := pick_removed c.cons ((c.streams.length + 1) * (c.streams.length + 1) + 1) c.streams c.rrIndex none
+      have I1 : Inv5 N (afterPick c (pickOf c)) := I.afterPick _ p1
+      have pl1 : ∀ o : Nat, Placed c o → Placed (afterPick c (pickOf c)) o := by
+        intro o h
+        rcases h with h | h | h
+        · rcases prem o h with h' | h'
+          · exact Or.inl h'
+          · exact Or.inr (Or.inr h')
+        · exact Or.inr (Or.inl h)
+        · exact Or.inr (Or.inr h)
+      cases hsel : (pickOf c).2.2.1 with
+      | none => exact ⟨I1, pl1⟩
+      | some s =>
+        simp only
+        obtain ⟨hs1, hs2⟩ := p2 s hsel
+        have I2 := I1.queueSeg s hs1 hs2
+        obtain ⟨i1, i2⟩ := ih _ I2
+        exact ⟨i1, fun o h => i2 o (queueSeg_placed _ s o (pl1 o h))⟩
+
+theorem check_inv5 {N : Nat} {c : Client} (I : Inv5 N c) (cbs : List (Nat × CbRec)) :
+    Inv5 N (c.check cbs).1 ∧ ∀ o : Nat, Placed c o → Placed (c.check cbs).1 o := by
+  unfold Client.check
+  exact doCheck_inv5 (window + 1) c I
+
+/-! ### every event keeps the bookkeeping -/
+
+theorem consumeObject_inv5 {N : Nat} {c : Client} (I : Inv5 N c) (o : Nat) (ho : o < c.cons.length) (v : Bool) :
+    Inv5 N (c.consumeObject o v).1 ∧
+    ∀ o' : Nat, o' = o ∨ Placed c o' → Placed (c.consumeObject o v).1 o' := by
+  have hfail : Inv5 N (c.fail o).1 ∧ ∀ o' : Nat, o' = o ∨ Placed c o' → Placed (c.fail o).1 o' :=
+    ⟨I.fail o, fun o' h => fail_placed c o o' ho h⟩
+  unfold Client.consumeObject
+  simp only
+  cases hgl : (c.getCons o).fetchName.getLast? with
+  | none => exact hfail
+  | some l =>
+    simp only
+    by_cases hv : l.typ ≠ typVersion
+    · rw [if_pos hv]
+      by_cases hvm : v = true
+      · rw [if_pos hvm]; exact hfail
+      · rw [if_neg hvm]
+        refine ⟨I.setCons o _ ((I.k o).congr rfl rfl) rfl, ?_⟩
+        intro o' h
+        unfold Placed
+        simp only
+        rw [getCons_setCons]
+        by_cases he : o' = o
+        · subst he; simp [ho]
+        · simp only [he, false_and, if_false]
+          rcases h with h | h
+          · exact absurd h he
+          · exact h
+    · rw [if_neg hv]
+      have I1 : Inv5 N ({ c with streams := c.streams ++ [o] } : Client) := by
+        refine ⟨I.len, I.k, I.out, ?_⟩
+        intro o' ho'
+        have : o' ∈ c.streams ++ [o] := ho'
+        rcases List.mem_append.mp this with h | h
+        · exact I.inrange o' h
+        · simp at h; subst h; exact ho
+      obtain ⟨i1, i2⟩ := check_inv5 I1 []
+      refine ⟨i1, fun o' h => i2 o' ?_⟩
+      rcases h with h | h
+      · subst h; exact Or.inl (List.mem_append_right _ (by simp))
+      · rcases h with h | h
+        · exact Or.inl (List.mem_append_left _ h)
+        · exact Or.inr h
+
+theorem length_filter_ne {l : List Nat} (nd : l.Nodup) {k : Nat} (hk : k ∈ l) :
+    (l.filter (fun j => decide (j ≠ k))).length + 1 = l.length := by
+  induction l with
+  | nil => cases hk
+  | cons a t ih =>
+    obtain ⟨hnot, ndt⟩ := List.nodup_cons.mp nd
+    by_cases hak : a = k
+    · subst hak
+      have hself : t.filter (fun j => decide (j ≠ a)) = t := by
+        apply List.filter_eq_self.mpr
+        intro b hb
+        have : b ≠ a := fun e => hnot (e ▸ hb)
+        exact decide_eq_true this
+      rw [List.filter_cons_of_neg (by simp), hself, List.length_cons]
+    · have hkt : k ∈ t := by
+        rcases List.mem_cons.mp hk with h | h
+        · exact absurd h.symm hak
+        · exact h
+      have := ih ndt hkt
+      have hp : (fun j => decide (j ≠ k)) a = true := decide_eq_true hak
+      rw [List.filter_cons_of_pos hp, List.length_cons, List.length_cons]
+      omega
+
+theorem handleData_inv5 {N : Nat} {c : Client} (I : Inv5 N c) (o k : Nat) (a : Arrival)
+    (hk : k ∈ keys (c.getCons o)) (ha : ∀ p, a = .data p → p.name.getLast? = some (segComp k)) :
+    Inv5 N (c.handleData o k a).1 ∧ ∀ o' : Nat, Placed c o' → Placed (c.handleData o k a).1 o' := by
+  have ho : o < c.cons.length := by
+    apply Classical.byContradiction
+    intro h
+    unfold Client.getCons at hk
+    rw [List.getD_eq_getElem?_getD, List.getElem?_eq_none (by omega)] at hk
+    cases hk
+  obtain ⟨x, hx⟩ : ∃ x : Cons, x = c.getCons o := ⟨_, rfl⟩
+  obtain ⟨x2, hx2⟩ : ∃ x2 : Cons, x2 =
+      { x with
+        f := (x.f.handleData a).1
+        pending := x.pending.filter (fun e => decide (e.1 ≠ k)) } := ⟨_, rfl⟩
+  have hK2 : KCons x2 := by rw [hx2]; exact KCons.handleData (hx ▸ I.k o) k a (hx ▸ hk) ha
+  have hlen : x2.pending.length + 1 = x.pending.length := by
+    have h1 : x2.pending.length = (keys x2).length := by simp [keys]
+    have h2 : x.pending.length = (keys x).length := by simp [keys]
+    have h3 : keys x2 = (keys x).filter (fun j => decide (j ≠ k)) := by rw [hx2]; exact keys_filter x k
+    rw [h1, h2, h3]
+    exact length_filter_ne (hx ▸ (I.k o).nodup) (hx ▸ hk)
+  obtain ⟨removed, hrem⟩ : ∃ b : Bool, b = (!x.f.complete && (x.f.handleData a).1.complete &&
+      !(x.f.handleData a).1.err && !(x.f.handleData a).1.panic) := ⟨_, rfl⟩
+  -- the client before the final check
+  obtain ⟨c2, hc2⟩ : ∃ c2 : Client, c2 =
+      { (c.setCons o x2) with
+        outstanding := (c.setCons o x2).outstanding - 1
+        streams := if removed then (c.setCons o x2).streams.filter (fun s => decide (s ≠ o))
+          else (c.setCons o x2).streams } := ⟨_, rfl⟩
+  have hhd : c.handleData o k a = c2.check (((x.f.handleData a).2).map fun cb => (o, cb)) := by
+    unfold Client.handleData
+    rw [hc2, hx2, hrem, hx]
+  rw [hhd]
+  have hg2 : ∀ o' : Nat, c2.getCons o' = if o' = o then x2 else c.getCons o' := by
+    intro o'
+    have : c2.getCons o' = (c.setCons o x2).getCons o' := by rw [hc2]; rfl
+    rw [this, getCons_setCons]
+    by_cases he : o' = o
+    · simp [he, ho]
+    · simp [he]
+  have hst2 : ∀ s, s ∈ c2.streams → s ∈ c.streams := by
+    intro s hs
+    rw [hc2] at hs
+    have hs' : s ∈ (if removed = true then c.streams.filter (fun s => decide (s ≠ o)) else c.streams) := hs
+    split at hs'
+    · exact (List.mem_filter.mp hs').1
+    · exact hs'
+  have I2 : Inv5 N c2 := by
+    refine ⟨?_, ?_, ?_, ?_⟩
+    · rw [hc2]; show (c.cons.set o x2).length = N; rw [List.length_set]; exact I.len
+    · intro o'
+      rw [hg2]
+      split
+      · exact hK2
+      · exact I.k o'
+    · have h1 := totalPending_setCons c o x2 ho
+      rw [← hx] at h1
+      have h2 : c2.outstanding = c.outstanding - 1 := by rw [hc2]; rfl
+      have h3 : totalPending c2 = totalPending (c.setCons o x2) := by rw [hc2]; rfl
+      rw [h2, h3, I.out]; omega
+    · intro s hs
+      have : c2.cons.length = c.cons.length := by
+        rw [hc2]; show (c.cons.set o x2).length = _; rw [List.length_set]
+      rw [this]; exact I.inrange s (hst2 s hs)
+  obtain ⟨i1, i2⟩ := check_inv5 I2 (((x.f.handleData a).2).map fun cb => (o, cb))
+  refine ⟨i1, fun o' h => i2 o' ?_⟩
+  -- placement before the check
+  unfold Placed at h ⊢
+  rw [hg2]
+  by_cases he : o' = o
+  · subst he
+    simp only [if_true]
+    rcases h with h | h | h
+    · by_cases hr : removed = true
+      · right; right
+        rw [hrem] at hr
+        simp only [Bool.and_eq_true] at hr
+        rw [hx2]; exact hr.1.1.2
+      · left
+        rw [hc2]
+        show o' ∈ (if removed = true then c.streams.filter (fun s => decide (s ≠ o')) else c.streams)
+        rw [if_neg hr]; exact h
+    · right; left; rw [hx2, hx]; exact h
+    · right; right
+      rw [hx2]
+      show (x.f.handleData a).1.complete = true
+      rw [hx, hd_complete _ _ h]; exact h
+  · simp only [he, if_false]
+    rcases h with h | h | h
+    · left
+      rw [hc2]
+      show o' ∈ (if removed = true then c.streams.filter (fun s => decide (s ≠ o)) else c.streams)
+      split
+      · exact List.mem_filter.mpr ⟨h, by simpa using he⟩
+      · exact h
+    · exact Or.inr (Or.inl h)
+    · exact Or.inr (Or.inr h)
+
 end Ndn.C15
